@@ -65,4 +65,7 @@ def sendTimeoutReadsClock : Bool := true
 /-- Packetizer.read_all: socket.timeout and socket.error(EAGAIN) reach one and the same NeedRekeyException test -/
 def readAllIdleBranchesShareRekeyTest : Bool := true
 
+/-- the methods of transport.py that call `_send_message` directly (not through the clear_to_send gate) -/
+def sendMessageCallers : List String := ["Transport._send_user_message", "Transport.run", "Transport._send_kex_init", "Transport._activate_outbound", "Transport._parse_global_request", "Transport._parse_channel_open", "ServiceRequestingTransport.ensure_session"]
+
 end PV.Generated.C11
